@@ -34,6 +34,10 @@ theorem c10_sha1_padding (cfm : Sha1.State → Bytes → Sha1.State)
     (m : Bytes) : Sha1.sha1With cfm m = Spec.Sha1.sha1With cfs m :=
   Sha1.sha1With_eq cfm cfs hcf m
 
+/-- the hypothesis of `c10_sha1_padding` is met by the real pair (`process`, FIPS `compress`) -/
+example (m : Bytes) : Sha1.sha1With Sha1.process m = Spec.Sha1.sha1With Spec.Sha1.compress m :=
+  c10_sha1_padding Sha1.process Spec.Sha1.compress c10_sha1_compress m
+
 /-- `Sha1::from(m).digest().bytes()` is the SHA-1 digest of `m`, for every byte string. -/
 theorem c10_sha1 (m : Bytes) : Sha1.sha1 m = Spec.Sha1.sha1 m := Sha1.sha1_eq m
 
